@@ -103,7 +103,20 @@ def snapshot(state):
     compared with ==), printed arguments, presence of a subproof; plus the declared variables."""
     lines = tuple((pos, it.id.id, it.rule, tuple(p.id for p in it.prevs), it.th, args_str(it), it.subproof is not None)
                   for pos, it in walk(state))
-    return (tuple((v.name, v.T) for v in state.vars), lines)
+    return (tuple((v.name, v.T) for v in state.vars), lines, rpt_sig(state))
+
+
+def rpt_sig(state):
+    """What is observable of `state.rpt` (ProofState.__copy__ only shallow-copies the report, and
+    json_data reads rpt.gaps): the gap list and the counters / name sets."""
+    r = getattr(state, "rpt", None)
+    if r is None:
+        return None
+    try:
+        return (tuple(r.gaps), r.steps, r.thm_steps, r.prim_steps, r.macro_steps,
+                tuple(sorted(r.th_names)), tuple(sorted(r.macros_eval)), tuple(sorted(r.macros_expand)))
+    except Exception as e:  # noqa
+        return ("unreadable", type(e).__name__)
 
 
 def show_snapshot(snap, limit=60):
@@ -266,6 +279,7 @@ def diagnose_import(goal, state, exported):
         if it.rule == "variable" and it.args:
             decl.setdefault(it.args[0], set()).add(it.args[1])
     clash = {n for n, ts in decl.items() if len(ts) > 1}
+    tyinst_lost = False
     goal.set_context()
     try:
         for line, it in zip(exported, items):
@@ -285,12 +299,14 @@ def diagnose_import(goal, state, exported):
                 a1 = [a for a in (it.args if isinstance(it.args, tuple) else (it.args,)) if isinstance(a, Inst)]
                 a2 = [a for a in (it2.args if isinstance(it2.args, tuple) else (it2.args,)) if isinstance(a, Inst)]
                 if a1 and a2 and any(x.tyinst and dict(x.tyinst) != dict(y.tyinst) and dict(x) == dict(y) for x, y in zip(a1, a2)):
-                    return "inst-tyinst-lost"
+                    tyinst_lost = True         # explains a failing re-check only if every line reads back
             if it2.th != it.th and it.th is not None:
                 names = set()
                 for t in (it.th.prop,) + tuple(it.th.hyps):
                     names.update(v.name for v in t.get_vars())
                 return "shadowed-variable" if names & clash else None
+        if tyinst_lost:
+            return "inst-tyinst-lost"
     finally:
         goal.set_context()
     return None
@@ -522,14 +538,17 @@ def param_type(state, step, var_name, goal_pos, facts):
     return None
 
 
-def random_step(state, rng):
+def random_step(state, rng, kind=None, goal_pos=None):
     """One perturbation step: interleaved cut/cases/intro/forall_elim/exists_elim/revert/rewrite/...
     aimed at a random gap (sometimes at a line that is not a gap, or at no line at all)."""
     from kernel.type import BoolType
     lines = walk(state)
     gaps = [pos for pos, it in lines if it.rule == "sorry"]
     r = rng.random()
-    if gaps and r < 0.86:
+    forced = kind
+    if goal_pos is not None:
+        pass
+    elif gaps and r < 0.86:
         goal_pos = rng.choice(gaps)
     elif r < 0.95 or not lines:
         goal_pos = rng.choice(lines)[0] if lines else (0,)
@@ -539,6 +558,8 @@ def random_step(state, rng):
     kind = rng.choice(["cut", "cut", "cases", "introduction", "introduction", "forall_elim", "exists_elim", "revert_intro",
                        "revert_intro", "rewrite_goal_with_prev", "apply_prev", "apply_fact", "new_var", "inst_exists_goal",
                        "rewrite_fact_with_prev", "search", "search", "search"])
+    if forced is not None:
+        kind = forced
     step = {"method_name": kind, "goal_id": id_str(goal_pos), "fact_ids": []}
     try:
         it = state.get_proof_item(goal_pos)
@@ -548,6 +569,8 @@ def random_step(state, rng):
         k = rng.choice([0, 0, 1, 1, 2, 3])
         facts = rng.sample(vis, min(k, len(vis)))
         try:
+            if SEARCH_HOOK is not None:
+                SEARCH_HOOK(state, goal_pos, facts)
             with time_limit(STEP_LIMIT):
                 res = state.search_method(id_str(goal_pos), [id_str(f) for f in facts])
         except Timeout:
@@ -619,6 +642,10 @@ def perturb(step, state, rng):
     return s
 
 
+SEARCH_HOOK = None        # C14 logs the searches the step generator makes (replay of history-dependent failures)
+CURRENT_RUNNER = None
+
+
 # ====================================================================== running a sequence
 class Runner:
     """Runs one edit sequence on one goal, judging every completed step."""
@@ -629,6 +656,8 @@ class Runner:
         self.recorder = recorder
         self.observer = observer           # called with (runner, state) on every reached state (C14)
         self.judge_states = judge_states
+        global CURRENT_RUNNER
+        CURRENT_RUNNER = self
         self.trail = []          # [{"step":…, "on_copy":bool, "adopt":bool, "outcome":…}]
         self.frozen = []         # earlier copies with their snapshots: must never change
         self.state = goal.init_state()
@@ -649,7 +678,7 @@ class Runner:
         cause = getattr(self, "cause", None)
         if cause and cls in ("recheck-fails", "final-check-fails", "recheck-other-result"):
             cls = "%s:%s" % (cls, cause)
-            key = cls if cause == "fact-with-foreign-hypothesis" else "%s:%s" % (cls, method_name)
+            key = "%s:%s" % (cls, method_name)
             what = "%s after %s on %s: %s" % (cls, method_name, self.goal.ident(), detail)
             rp = self.replay_dict({"invariant": cls, "detail": detail})
             self.ctx.violation(key, what, rp)
@@ -886,6 +915,14 @@ DIRECTED = [
          {"method_name": "apply_backward_step", "goal_id": "2.1", "fact_ids": ["1"], "theorem": "conjI"},
          {"method_name": "apply_forward_step", "goal_id": "1", "fact_ids": ["0"], "theorem": "conjD2"},
      ]},
+    # two exists_elim in one scope: the second one extends what the first one created (the argument
+    # list of the closing `intros` line); on a copy this must not reach the original
+    {"name": "exists-elim-twice-in-scope", "theory": "logic", "vars": {"P": "'a => bool", "Q": "'a => bool", "C": "bool"},
+     "prop": "(?x. P x) --> (?x. Q x) --> C",
+     "steps": [
+         {"method_name": "exists_elim", "goal_id": "2", "fact_ids": ["0"], "names": "u"},
+         {"method_name": "exists_elim", "goal_id": "4", "fact_ids": ["1"], "names": "v"},
+     ]},
     # two new gaps, the first already proved by an earlier line, the second not: the trivial-closing
     # loop of apply_tactic must not touch the second
     {"name": "apply-tactic-proved-then-open", "theory": "logic", "vars": {"A": "bool", "B": "bool", "C": "bool"},
@@ -910,6 +947,60 @@ def run_directed(ctx, rng, recorder=None, **kw):
                     ctx.log("directed scenario %s stopped at %s: %s" % (sc["name"], st["method_name"], r.trail[-1:] and r.trail[-1].get("outcome")))
                     break
             r.check_frozen()
+
+
+# ====================================================================== corpus (replayed first)
+def load_goal(g):
+    """Goal from its JSON form (library theorem at its own point of the theory, or generated)."""
+    from logic import basic
+    if g.get("generated"):
+        basic.load_theory(g["theory"])
+        return Goal(g["theory"], g["name"], g["vars"], g["prop"], generated=True)
+    basic.load_theory(g["theory"], limit=("thm", g["name"]))
+    data = basic.load_json_data(g["theory"], "master")
+    raw = [x for x in data["content"] if x.get("ty") == "thm" and x.get("name") == g["name"]][0]
+    return Goal(g["theory"], g["name"], raw["vars"], raw["prop"], steps=raw.get("steps"))
+
+
+def run_corpus_entry(ctx, e):
+    """One minimised past failure: {"name", "expect": key, "goal", "trail" | "recorded": n}.
+    `recorded: n` replays the first n recorded steps of the library theorem."""
+    goal = load_goal(e["goal"])
+    r = Runner(ctx, goal, ctx.rng("corpus/" + e["name"]), 1.0)
+    trail = e.get("trail")
+    if trail is None:
+        trail = [{"step": clean_step(st), "on_copy": False, "adopt": True} for st in goal.steps[:e["recorded"]]]
+    for t in trail:
+        if r.dead:
+            break
+        r.apply(dict(t["step"]), on_copy=t.get("on_copy", False), adopt=t.get("adopt", True), source="corpus")
+    r.check_frozen()
+    return r
+
+
+def run_corpus(ctx):
+    p = os.path.join(ctx.verif, "corpus", "c13.json")
+    if not os.path.exists(p):
+        return
+    with open(p, encoding="utf-8") as f:
+        entries = json.load(f)
+    for e in entries:
+        before = set(ctx.known_hits) | {v[0] for v in ctx.violations}
+        try:
+            run_corpus_entry(ctx, e)
+        except Timeout:
+            ctx.count("corpus:timeout:" + e["name"])
+            continue
+        except Exception as ex:  # noqa
+            ctx.count("corpus:not-runnable:" + e["name"])
+            ctx.log("corpus entry %s could not be run: %s: %s" % (e["name"], type(ex).__name__, short(ex)))
+            continue
+        after = set(ctx.known_hits) | {v[0] for v in ctx.violations}
+        if e.get("expect") in after:
+            ctx.count("corpus:reproduced")
+        else:
+            ctx.count("corpus:no-longer-fails")
+            ctx.log("corpus entry %s (%s) no longer fails%s" % (e["name"], e.get("expect"), (": new keys %s" % sorted(after - before)) if after - before else ""))
 
 
 # ====================================================================== sequences
@@ -943,6 +1034,32 @@ def run_recorded(ctx, goal, rng, perturb_rate, export_rate, recorder=None, **kw)
     return r
 
 
+GENERATED_KINDS = {"cut", "cases", "introduction", "forall_elim", "exists_elim", "revert_intro", "rewrite_goal_with_prev",
+                   "apply_prev", "apply_fact", "new_var", "inst_exists_goal", "rewrite_fact_with_prev"}
+
+
+def same_scope_again(r, step, rng):
+    """After a completed step: the same method again, aimed at a gap of the same proof (scope),
+    applied to a copy — shared mutable data between a state and its copy shows only when a method
+    touches what an earlier application of it created."""
+    kind = step.get("method_name")
+    if kind not in GENERATED_KINDS:
+        return
+    try:
+        gp = tuple(int(x) for x in str(step["goal_id"]).split("."))
+    except Exception:  # noqa
+        return
+    gaps = [pos for pos, it in walk(r.state) if it.rule == "sorry" and pos[:-1] == gp[:-1]]
+    if not gaps:
+        return
+    try:
+        s2 = random_step(r.state, rng, kind=kind, goal_pos=rng.choice(gaps))
+    except Timeout:
+        return
+    if s2 is not None:
+        r.apply(s2, on_copy=True, adopt=rng.random() < 0.5, source="again")
+
+
 def run_walk(ctx, goal, rng, length, export_rate, recorder=None, **kw):
     """Random walk: suggestions of search_method and interleaved generated method applications."""
     r = Runner(ctx, goal, rng, export_rate, recorder, **kw)
@@ -956,10 +1073,13 @@ def run_walk(ctx, goal, rng, length, export_rate, recorder=None, **kw):
         if s is None:
             continue
         on_copy = rng.random() < 0.4
-        r.apply(s, on_copy=on_copy, adopt=rng.random() < 0.6, source="walk")
+        out = r.apply(s, on_copy=on_copy, adopt=rng.random() < 0.6, source="walk")
         if r.rng.random() < 0.15 and r.trail:
             # repeated application of the step just made
             r.apply(dict(r.trail[-1]["step"]), on_copy=rng.random() < 0.5, adopt=True, source="repeat")
+        if out == "ok" and not r.dead and rng.random() < 0.3:
+            # the same method once more in the same scope (another gap of the same proof), on a copy
+            same_scope_again(r, s, rng)
     r.check_frozen()
     return r
 
@@ -985,6 +1105,8 @@ class Recorder:
         self.orig = {}
         self.export_capture = None
         self.skipped = 0
+        self.active = True           # C14 records only the applications of suggestions
+        self.export_shape_mismatch = []
 
     # ---- encoding
     def tcode(self, t):
@@ -1012,25 +1134,38 @@ class Recorder:
         return [self.item(it) for it in st.prf.items]
 
     # ---- installation
-    def install(self):
-        from kernel.proofterm import ProofTerm
-        from server import method
-        PS = method.ProofState
+    def install(self, ctx=None):
+        """Wraps the primitives that exist; one that is missing (renamed) is reported with
+        ctx.broken and left alone, so that the oracle streams still run."""
+        self.problems = []
+        try:
+            from kernel.proofterm import ProofTerm
+            from server import method
+            PS = method.ProofState
+        except Exception as e:  # noqa
+            self.problems.append("cannot import ProofState / ProofTerm: %r" % e)
+            self.orig_export = None
+            self._report(ctx)
+            return
         rec = self
         for name in self.PRIMS:
-            orig = getattr(PS, name)
+            orig = getattr(PS, name, None)
+            if not callable(orig):
+                self.problems.append("ProofState.%s not found" % name)
+                continue
             self.orig[name] = orig
 
             def make(name, orig):
                 def wrapped(st, *a, **kw):
-                    if rec.depth == 0:
+                    if rec.depth == 0 and rec.active:
                         rec.calls += 1
-                    if rec.depth > 0 or len(rec.records) >= rec.limit or rec.calls % rec.every != 0:
+                    if rec.depth > 0 or not rec.active or len(rec.records) >= rec.limit or rec.calls % rec.every != 0:
                         rec.depth += 1
                         try:
                             return orig(st, *a, **kw)
                         finally:
                             rec.depth -= 1
+                    before, args = None, None
                     try:
                         before = rec.state(st)
                         args = rec.encode_args(name, st, a, kw)
@@ -1055,32 +1190,50 @@ class Recorder:
                             rec.skipped += 1
                 return wrapped
             setattr(PS, name, make(name, orig))
-        orig_export = ProofTerm.export
+        orig_export = getattr(ProofTerm, "export", None)
         self.orig_export = orig_export
+        if not callable(orig_export):
+            self.problems.append("ProofTerm.export not found")
+            self.orig_export = None
+            self._report(ctx)
+            return
 
-        def export(pt, prefix=None, prf=None, subproof=True):
-            res = orig_export(pt, prefix=prefix, prf=prf, subproof=subproof)
-            if rec.export_capture is not None and not subproof and not rec.export_capture:
-                from logic import logic
-                lines = []
-                for it in res.items:
-                    triv = False
-                    if it.rule == "sorry":
-                        try:
-                            triv = bool(logic.trivial_macro().can_eval(it.th.prop))
-                        except Exception:  # noqa
-                            triv = False
-                    lines.append([rec.item(it), triv])
-                rec.export_capture.append(lines)
+        def export(pt, *a, **kw):
+            res = orig_export(pt, *a, **kw)
+            try:
+                subproof = kw["subproof"] if "subproof" in kw else (a[2] if len(a) > 2 else True)
+                if rec.export_capture is not None and not subproof and not rec.export_capture:
+                    from logic import logic
+                    lines = []
+                    for it in res.items:
+                        triv = False
+                        if it.rule == "sorry":
+                            try:
+                                triv = bool(logic.trivial_macro().can_eval(it.th.prop))
+                            except Exception:  # noqa
+                                triv = False
+                        lines.append([rec.item(it), triv])
+                    rec.export_capture.append(lines)
+            except Exception:  # noqa
+                rec.skipped += 1
             return res
         ProofTerm.export = export
+        self._report(ctx)
+
+    def _report(self, ctx):
+        if self.problems and ctx is not None:
+            ctx.broken("correspondence:%s:recorder" % ctx.prop.lower(), "; ".join(self.problems))
 
     def uninstall(self):
-        from kernel.proofterm import ProofTerm
-        from server import method
-        for name, orig in self.orig.items():
-            setattr(method.ProofState, name, orig)
-        ProofTerm.export = self.orig_export
+        try:
+            from kernel.proofterm import ProofTerm
+            from server import method
+            for name, orig in self.orig.items():
+                setattr(method.ProofState, name, orig)
+            if getattr(self, "orig_export", None) is not None:
+                ProofTerm.export = self.orig_export
+        except Exception:  # noqa
+            pass
 
     @staticmethod
     def idl(x):
@@ -1122,6 +1275,14 @@ class Recorder:
             if not cap:
                 self.skipped += 1
                 return
+            # hypothesis `exportedAt` of the C14 theorems: the exported lines are numbered id, id+1, ...
+            gid = args[0]
+            # and hypothesis `shapeOk` of apply_tactic_preserves_wf: no subproofs, citations admissible
+            for k, ln in enumerate(cap[0]):
+                if ln[0][0] != gid[:-1] + [gid[-1] + k] or ln[0][4] or ln[0][5] \
+                        or not all(visible(tuple(p), tuple(ln[0][0])) for p in ln[0][2]):
+                    self.export_shape_mismatch.append((gid, [(x[0][0], x[0][2]) for x in cap[0]]))
+                    break
             op = ["tactic", before, args[0], cap[0]]
         elif name == "find_goal":
             op = ["find", before] + args
@@ -1185,14 +1346,15 @@ def mutate_structure(items, rng):
     return items
 
 
-def correspondence(ctx, recorder):
+def correspondence(ctx, recorder, exe=None, id_cases=None):
     from kernel.proof import ItemID
+    exe = exe or EXE
     rng = ctx.rng("ids")
     lines, expect, label = [], [], []
     # --- ItemID arithmetic on generated ids (shared prefixes on purpose)
     def rid():
         return [rng.randint(0, 3) for _ in range(rng.randint(1, 4))]
-    for _ in range(ctx.scale(3000, 30000)):
+    for _ in range(ctx.scale(3000, 30000) if id_cases is None else id_cases):
         a = rid()
         b = rid()
         if rng.random() < 0.6:
@@ -1215,6 +1377,13 @@ def correspondence(ctx, recorder):
         expect.append(norm(bool(A.can_depend_on(B))))
         label.append("itemid:can_depend_on")
     # --- the primitives the real run performed
+    if recorder.calls > 20 and not recorder.records:
+        ctx.broken("correspondence:%s:recorder" % ctx.prop.lower(),
+                   "%d primitive calls seen, none could be recorded (signature of the ProofState primitives changed?)" % recorder.calls)
+    if recorder.export_shape_mismatch:
+        ctx.broken("correspondence:%s:exported-ids" % ctx.prop.lower(),
+                   "ProofTerm.export(prefix=id, subproof=False) did not deliver lines id, id+1, ... without subproofs and with "
+                   "admissible citations (hypotheses `exportedAt` / `shapeOk` of the theorems): %s" % (recorder.export_shape_mismatch[:2],))
     wf_rng = ctx.rng("wf")
     for name, op, after in recorder.records:
         lines.append(sexp.dumps(op))
@@ -1229,9 +1398,9 @@ def correspondence(ctx, recorder):
             lines.append(sexp.dumps(["wf", m]))
             expect.append(norm(py_wf(m)))
             label.append("wf:mutated")
-    out = ctx.lean_driver(EXE, lines) if lines else []
+    out = ctx.lean_driver(exe, lines) if lines else []
     if out is None or len(out) != len(lines):
-        ctx.broken("correspondence:c13:driver", "model driver unavailable or answered %s lines for %d" % (None if out is None else len(out), len(lines)))
+        ctx.broken("correspondence:%s:driver" % ctx.prop.lower(), "model driver unavailable or answered %s lines for %d" % (None if out is None else len(out), len(lines)))
         return
     ndis = 0
     for ln, exp, lab, got in zip(lines, expect, label, out):
@@ -1243,7 +1412,7 @@ def correspondence(ctx, recorder):
         if g != exp:
             ndis += 1
             if ndis <= 3:
-                ctx.broken("correspondence:c13:" + lab, "input=%s impl=%s model=%s" % (ln[:600], str(exp)[:400], str(g)[:400]))
+                ctx.broken("correspondence:%s:%s" % (ctx.prop.lower(), lab), "input=%s impl=%s model=%s" % (ln[:600], str(exp)[:400], str(g)[:400]))
                 ctx.coverage["disagreements_checked"] += 1
     ctx.coverage["model_comparisons"] = len(lines)
     ctx.coverage["primitive_calls_skipped"] = recorder.skipped
@@ -1279,7 +1448,7 @@ def run(ctx):
         "lines justified by the `z3` macro are accepted without calling Z3 (z3wrapper.check_z3 = False, as server/monitor.py does)",
         "copy isolation is checked on the real objects after every step; it is not a theorem (a pure model cannot exhibit sharing)"]
     recorder = Recorder(ctx.scale(3000, 40000), every=ctx.scale(5, 2))
-    recorder.install()
+    recorder.install(ctx)
     try:
         oracle_streams(ctx, recorder)
     finally:
@@ -1300,6 +1469,7 @@ def neutralise_z3(ctx):
 
 def oracle_streams(ctx, recorder=None):
     neutralise_z3(ctx)
+    run_corpus(ctx)
     theories = THEORIES_QUICK if ctx.tier == "quick" else THEORIES_THOROUGH
     budget = {"logic_base": 14, "logic": 22, "function": 8, "list": 8, "hoare": 8, "nat": 22, "set": 14}
     nshown = 0
@@ -1347,17 +1517,9 @@ def oracle_streams(ctx, recorder=None):
 
 def replay(ctx, rp):
     """Re-run one recorded failing sequence on the implementation; True if it still fails."""
-    from logic import basic
+    neutralise_z3(ctx)
     r = rp["replay"]
-    g = r["goal"]
-    if g.get("generated"):
-        basic.load_theory(g["theory"])
-        goal = Goal(g["theory"], g["name"], g["vars"], g["prop"], generated=True)
-    else:
-        basic.load_theory(g["theory"], limit=("thm", g["name"]))
-        data = basic.load_json_data(g["theory"], "master")
-        raw = [x for x in data["content"] if x.get("ty") == "thm" and x.get("name") == g["name"]][0]
-        goal = Goal(g["theory"], g["name"], raw["vars"], raw["prop"], steps=raw.get("steps"))
+    goal = load_goal(r["goal"])
     rng = ctx.rng("replay")
     run_ = Runner(ctx, goal, rng, 1.0)
     for t in r["trail"]:
@@ -1370,14 +1532,20 @@ def replay(ctx, rp):
 
 MANIFEST = {
     "text": "Property oracle on the real server/method.py + server/server.py after every completed step of generated edit sequences "
-            "(recorded library steps, search_method suggestions, random perturbation; live state or copy): contiguous numbering, citations "
-            "earlier+visible, last line = stated goal, full re-check with exactly the open gaps, acceptance with no_gaps when none is left, "
-            "export->import identity, copy isolation. Lean: executable model of the proof-tree structure and of add_line_before / remove_line / "
-            "set_line / replace_id / find_goal / apply_tactic, tied to the code by replaying every recorded primitive call and the ItemID "
-            "arithmetic on the model; theorems: shift_preserves_visibility, visibility_transitive, add_line/set_line/replace_preserves_citations, "
-            "edits_preserve_citations_partial, goal_preserved_nested_partial, goal_preserved_partial (sequences of add_line_before/remove_line/"
-            "set_line). Not proved: numbering preservation (ids = positions), citations under remove_line, replace_id/apply_tactic as "
-            "composites, export/import (these are judged by the oracle and the correspondence stream, incl. the model's wf verdict).",
+            "(corpus of past failures first; recorded library steps, search_method suggestions, random perturbation incl. the same method "
+            "again in the same scope; directed scenarios; live state or copy): contiguous numbering, citations earlier+visible, last line = "
+            "stated goal, full re-check with exactly the open gaps, acceptance with no_gaps when none is left, export->import identity, copy "
+            "isolation (lines, variables and report). Lean: executable model of the proof-tree structure and of add_line_before / remove_line "
+            "/ set_line / replace_id / find_goal / apply_tactic, tied to the code by replaying every recorded primitive call and the ItemID "
+            "arithmetic on the model. Proved (edit_preserves_wf, edits_preserve_wf): each of the five operations, hence every sequence, "
+            "preserves well-formedness = ids equal positions at every depth + every citation satisfies can_depend_on, under the precondition "
+            "the code establishes (insert before an existing line; set_line with admissible citations; remove a line no line of its proof "
+            "cites; replace_id by a line visible from the old one; apply_tactic with exported lines that have no subproofs and admissible "
+            "citations - checked on every captured export); wf_citation_resolves: in a well-formed state every cited line exists. "
+            "goal_preserved_partial only says that add_line_before/remove_line/set_line calls which do not target the last top-level line "
+            "leave its rule and sequent alone (hypothesis safeRun); that replace_id / apply_tactic keep the last line, and that the methods "
+            "meet safeRun, is NOT proved - it is observed by the oracle (last line checked after every step) and the correspondence stream. "
+            "Export/import is oracle-only.",
     "note": "Trusted: Lean kernel (propext/Classical.choice/Quot.sound), the harness (generators, invariants, recorder), holpy's own checker "
             "theory.check_proof as the judge of 'checkable', term printing/parsing for the export comparison, z3 checks switched off "
             "(z3wrapper.check_z3=False). Tactic bodies and Python aliasing are not modelled; copy isolation is checked on real objects only.",
@@ -1401,11 +1569,16 @@ FINDINGS = [
     {"status": "fixed", "key": "import-fails:cases:TypeInferenceException:_Unspecified_type_Var(k,", "commit": "8d0afa4",
      "what": "get_vars(id) put the variable declared at line id in scope of a line inserted before it (nat.mult_1_right: new_var k at 0, "
              "cut `k` at 0): the export mentions k before its declaration and cannot be re-imported"},
-    {"status": "known", "key": "recheck-fails:fact-with-foreign-hypothesis",
-     "what": "a method applied with a fact that depends on a hypothesis the goal does not have replaces the goal line by one with a weaker "
-             "sequent, after which the lines citing it do not re-check (generated goal (A --> B) --> ~B --> ~A: cut ~B three times, "
-             "revert_intro goal 5 fact 1, apply_backward_step negE_gen goal 4 fact 2). Refusing in apply_tactic alone would make search "
-             "suggest steps that apply refuses; a fix has to filter in every search as well"},
+    {"status": "fixed", "key": "recheck-fails:fact-with-foreign-hypothesis:apply_backward_step", "commit": "fixes/C13-9.patch",
+     "what": "apply_backward_step with a fact that depends on a hypothesis the goal does not have replaced the goal line by one with a "
+             "weaker sequent, after which the lines citing it did not re-check (corpus: (A --> B) --> ~B --> ~A, cut ~B at 2, revert_intro "
+             "goal 3 fact 1, apply_backward_step negE_gen goal 2 fact 1); now refused by the tactic itself, in search and in apply"},
+    {"status": "fixed", "key": "recheck-fails:fact-with-foreign-hypothesis:rewrite_goal_with_prev", "commit": "fixes/C13-9.patch",
+     "what": "the same through rewrite_goal_with_prev (corpus: cut `~A <--> C` at 2, revert_intro goal 3 fact 1, rewrite_goal_with_prev "
+             "goal 2 fact 1)"},
+    {"status": "fixed", "key": "recheck-fails:fact-with-foreign-hypothesis:z3", "commit": "fixes/C13-10.patch",
+     "what": "the z3 method overwrote the goal line without its stated sequent; with a fact that depends on a hypothesis the goal lacks "
+             "(corpus: perturbed replay of set.card_delete, goal 2.1, fact 2.0) the state no longer re-checked"},
     {"status": "fixed", "key": "import-fails:induction:TypeError:", "commit": "8aad925",
      "what": "a state with an apply_induct line (any use of the induction method, e.g. list.append_right_neutral) could not be re-imported: "
              "parser.parse_args had no case for Tuple[str, Term, Term]"},
